@@ -655,7 +655,9 @@ def shape_checks(ctx):
 # backward_censored (backward receives the very object forward returned, or its values in
 # another representation), a parameter change (the six styles of the stateful mode), the
 # replacement of an object by a new one, an in-place change of the contents of an input
-# array by its owner, an in-place change of a returned array by its owner.
+# array by its owner, an in-place change of a returned array by its owner, of a numpy array
+# that was assigned as the whole parameter vector.  backward is also called as the FIRST call
+# after an object was built or its setting changed (y computed by an equal transform).
 # Input arrays are float64 in one of the stored representations of REPRS (C-contiguous,
 # strided view, negative stride, read-only view, slice of a larger array, non-native byte
 # order); Softmax matrices in those of REPRS2.
@@ -972,8 +974,19 @@ class Session:
             target = {k: target[k]}
         if style == "reset":
             target = {}
+        owned = []
         try:
-            tc.apply_step(a.t, style, target)
+            if style == "values" and rng.random() < 0.5:
+                # the whole vector given as a float64 numpy array that belongs to the caller ...
+                style = "values (numpy array of the caller)"
+                for vec in (a.t.params, a.t.constants):
+                    vn = [str(n) for n in vec.names]
+                    if any(n in target for n in vn):
+                        arr = np.array([target[n] if n in target else float(vec[n]) for n in vn], dtype=np.float64)
+                        vec.values = arr
+                        owned.append((vn, arr))
+            else:
+                tc.apply_step(a.t, style, target)
         except Exception as e:      # noqa: BLE001
             self.log(a, "set", style=style, changes=target)
             self.fail(a, "set-raises", f"{style} {target} raised {type(e).__name__}", exception=repr(e))
@@ -981,6 +994,10 @@ class Session:
             return
         a.want = tc.stored_values(a.t)
         a.Y = a.Yvals = a.Yx = a.B = None
+        for vn, arr in owned:
+            # ... who then reuses it for something else: the object keeps the setting it was given
+            other = rng.choice(a.vecs)
+            arr[...] = [other.get(n, 0.5) if not math.isnan(other.get(n, 0.5)) else 0.5 for n in vn]
         how = self.fill(a, keep=True)
         self.log(a, "set", style=style, changes=target, values=a.want, input=how)
         self.ctx.count((a.name, "session", "set", how))
@@ -1041,11 +1058,27 @@ class Session:
         kind = self.rng.choice(REPRS)
         return Buf(a.Yvals, kind).arr, kind
 
+    def image_from_equal_transform(self, a):
+        """y = forward(x) computed by ANOTHER object holding the same setting (a new one, on a
+        C-contiguous copy): the object under test then meets backward before any forward since
+        it was built / since its setting was changed"""
+        ref = self.reference(a)
+        if ref is None:
+            return False
+        snap = a.buf.values()
+        r, _ = tc.call(ref, "fwd", snap)
+        if r is None:
+            return False
+        a.Y, a.Yvals, a.Yx = None, r, snap
+        self.log(a, "y = forward(x) by another object with the same values", x=snap, y=r)
+        return True
+
     def op_backward(self, a):
         if not self.usable(a):
             return
-        if a.Y is None and not self.op_forward(a):
-            return
+        if a.Yvals is None:
+            if not (self.image_from_equal_transform(a) if self.rng.random() < 0.5 else self.op_forward(a)):
+                return
         if a.Yvals is None or not all(math.isfinite(y) for y in a.Yvals):
             return
         ctx = self.ctx
@@ -1122,7 +1155,7 @@ class Session:
     def op_censored(self, a):
         if a.name in ("YeoJohnson", "Softmax") or not self.usable(a):      # (cast glue of a scalar: see notes)
             return
-        if a.Y is None and not self.op_forward(a):
+        if a.Yvals is None and not self.op_forward(a):
             return
         if a.Yvals is None or not all(math.isfinite(y) for y in a.Yvals):
             return
